@@ -25,6 +25,11 @@ def main():
         if a.k not in name or not os.path.exists(os.path.join(d, "patch.diff")):
             continue
         meta = json.load(open(os.path.join(d, "meta.json")))
+        if meta.get("excluded") and not a.props:
+            # confirmed to change behaviour, but judged not to contradict the
+            # property as stated (see meta["excluded"])
+            print("%-34s %-4s excluded" % (name, meta["property"]))
+            continue
         # "decided_by": the seeded change turned out to violate another
         # property than the one it was written for (see meta["judgement"])
         props = a.props.split(",") if a.props else \
